@@ -354,3 +354,109 @@ def r14_4(ctx):
                          not any(isinstance(n, ast.FunctionDef) and n.name == a for n in c.node.body))
         # conditional assignment in start is fine when check reads under the same configuration guard; only report never-assigned
         ctx.check("R14.4", f"{c.key}::per-run attributes read by check() are set by start()", not missing, f"never initialised: {missing}", ck)
+
+
+# ---------------------------------------------------------------------------------------------------------------- R14.5 - R14.7
+IC = "nifty.cl.minimization.iteration_controllers"
+
+
+def r14_5(ctx, m, rid="R14.5"):
+    """per-run state of a controller is re-initialised by start()"""
+    base = m.cls(IC, "IterationController")
+    ctx.rule(rid, "iteration controllers: every attribute that check() updates is (re)initialised by start(), so a controller object "
+                  "that is used for several minimisations (one per sample, one per inversion) starts each of them from a clean state", floor=4)
+    subs = [c for c in m.subclasses(base) if not c.local and "check" in c.methods and "start" in c.methods]
+    for c in subs:
+        ctx.saw_class(c)
+        ck, st = c.methods["check"], c.methods["start"]
+
+        def stored(fn):
+            out = set()
+            for s_ in walk_no_nested(fn.node):
+                tg = s_.targets if isinstance(s_, ast.Assign) else [s_.target] if isinstance(s_, (ast.AugAssign, ast.AnnAssign)) else []
+                for t in tg:
+                    for e in (t.elts if isinstance(t, (ast.Tuple, ast.List)) else [t]):
+                        if is_self_attr(e, None):
+                            out.add(e.attr)
+            # in-place mutation of list attributes: self._x.append(...)
+            for x in walk_no_nested(fn.node):
+                if isinstance(x, ast.Call) and isinstance(x.func, ast.Attribute) and x.func.attr in ("append", "clear", "extend", "pop") and is_self_attr(x.func.value, None):
+                    out.add(x.func.value.attr)
+            return out
+        upd = stored(ck)
+        init = stored(st)
+        # start() may delegate to helpers (e.g. self.reset())
+        for x in walk_no_nested(st.node):
+            if isinstance(x, ast.Call) and isinstance(x.func, ast.Attribute) and is_self_attr(x.func, None) is False and isinstance(x.func.value, ast.Name) \
+                    and x.func.value.id == "self" and x.func.attr in c.methods and x.func.attr != "check":
+                init |= stored(c.methods[x.func.attr])
+        missing = sorted(upd - init)
+        ctx.check(rid, f"{c.key}::start() re-initialises everything check() updates", not missing,
+                  f"check() updates {sorted(upd)}; start() does not reset {missing}: the value survives into the next minimisation that uses this "
+                  f"controller" if missing else f"state {sorted(upd)}", st)
+
+
+def r14_6(ctx, m):
+    CG = m.cls("nifty.cl.minimization.conjugate_gradient", "ConjugateGradient")
+    call = CG.methods["__call__"]
+    ctx.rule("R14.6", "the CG driver never writes attributes of the energy object (value, gradient and their cached norms are "
+                      "functions of the position and computed by the energy itself)", floor=1)
+    en = call.params()[1]
+    bad = []
+    for s_ in walk_no_nested(call.node):
+        tg = s_.targets if isinstance(s_, ast.Assign) else [s_.target] if isinstance(s_, (ast.AugAssign, ast.AnnAssign)) else []
+        for t in tg:
+            if isinstance(t, ast.Attribute) and isinstance(t.value, ast.Name) and t.value.id == en:
+                bad.append(s_)
+    for x in walk_no_nested(call.node):
+        if isinstance(x, ast.Call) and call_name(x) in ("setattr", "__setattr__") and x.args and src(x.args[0]) == en:
+            bad.append(x)
+    ctx.check("R14.6", f"{call.key}::no store into attributes of `{en}`", not bad,
+              f"`{short(bad[0])}`: with a preconditioner gamma is <r, M r>, not the squared gradient norm the controller tests" if bad else None, call, bad[0] if bad else None)
+
+
+def r14_7(ctx, m):
+    D = m.cls(IC, "DeltaEnergyController")
+    ck = D.methods["check"]
+    ctx.rule("R14.7", "DeltaEnergyController: the quantity compared with tol_rel_deltaE is |E_old - E| / max(|E_old|, |E|) (no absolute "
+                      "floor that would turn the relative criterion into an absolute one for small energies)", floor=1)
+    cfg = cfg_of(ck)
+    rd = cfg.reaching_defs(ck.params())
+    tests = [n for n in cfg.nodes if n.kind == "test" and isinstance(n.ast, ast.Compare) and "self._tol_rel_deltaE" in src(n.ast)]
+    key = f"{ck.key}::relative energy change"
+    if len(tests) != 1:
+        ctx.und("R14.7", key, f"{len(tests)} comparisons with the tolerance", ck)
+        return
+    t = tests[0].ast
+    lhs = t.left if "tol_rel_deltaE" in src(t.comparators[0]) else t.comparators[0]
+    e = inline_at(cfg, rd, tests[0].id, lhs, depth=3)
+    good = None
+    det = src(e)
+    if isinstance(e, ast.BinOp) and isinstance(e.op, ast.Div) and isinstance(e.right, ast.Call) and call_name(e.right) in ("max", "maximum"):
+        args = [src(a).replace(" ", "") for a in e.right.args]
+        num = src(e.left).replace(" ", "")
+        en = ck.params()[1]
+        ev = f"{en}.value"
+        core = {f"abs(self._Eold)", f"abs({ev})"}
+        extra = [a for a in args if a not in core]
+        ok_num = num in (f"abs(self._Eold-{ev})", f"abs({ev}-self._Eold)")
+
+        def tiny(a):
+            try:
+                return abs(float(ast.literal_eval(a))) <= 1e-100
+            except Exception:
+                return "tiny" in a
+        good = ok_num and core <= set(args) and all(tiny(a) for a in extra)
+        if extra and not all(tiny(a) for a in extra):
+            det += f" - the floor {extra} makes the test absolute whenever |E| is below it"
+    ctx.check("R14.7", key, good, det, ck, t)
+
+
+_run_c14b = run
+
+
+def run(ctx):  # noqa: F811
+    _run_c14b(ctx)
+    r14_5(ctx, ctx.model)
+    r14_6(ctx, ctx.model)
+    r14_7(ctx, ctx.model)
